@@ -1076,6 +1076,50 @@ def _assigns(fn, name):
 
 
 @register("C18")
+def c18_block_trim(repo_root, tier):
+    """The text that starts a block is trimmed by the marker of the tag that opens *that* block. parse_block() records the marker
+    of every tag it stops at (stream.trim_carry); a tag parser that reaches `when`/`else`/.. any other way sets it from that tag."""
+    repo = Repo(repo_root)
+    obs = []
+    n = 0
+
+    def has_call(node, name):
+        return any(isinstance(c, ast.Call) and ((isinstance(c.func, ast.Name) and c.func.id == name) or (isinstance(c.func, ast.Attribute) and c.func.attr == name)) for c in ast.walk(node))
+
+    for m, qual, cls, fn, parent in _all_functions(repo):
+        if fn.name != "parse" or ".tags." not in m.name:
+            continue
+        for body in [b for x in ast.walk(fn) for b in (getattr(x, "body", None), getattr(x, "orelse", None)) if isinstance(b, list)]:
+            for idx, st in enumerate(body):
+                if not (isinstance(st, (ast.While, ast.If)) and has_call(st.test, "is_tag") and any(has_call(x, "parse_block") for x in st.body)):
+                    continue
+                n += 1
+                # reached straight from a parse_block() that stopped at this tag?
+                carried = False
+                for prev in reversed(body[:idx]):
+                    if has_call(prev, "parse_block"):
+                        carried = True
+                        break
+                    if isinstance(prev, (ast.Assign, ast.AnnAssign, ast.Assert)) and not has_call(prev, "next") and not has_call(prev, "into_inner"):
+                        continue
+                    if isinstance(prev, (ast.While, ast.If)) and has_call(prev.test, "is_tag") and any(has_call(x, "parse_block") for x in prev.body):
+                        continue   # an optional alternative before this one; keep looking
+                    break
+                explicit = False
+                for x in st.body:
+                    if has_call(x, "parse_block"):
+                        break
+                    if isinstance(x, ast.Assign) and any(ast.unparse(t) == "stream.trim_carry" for t in x.targets) and ast.unparse(x.value).endswith(".wc[-1]"):
+                        explicit = True
+                ok = carried or explicit
+                _ob(obs, f"{m.name}:{qual}/site.block-trim-from-own-tag@{_ordinal(fn, st)}", ok,
+                    f"`{ast.unparse(st.test)}`: " + ("reached from a parse_block() that stopped at (and recorded the marker of) this tag" if carried and not explicit else "stream.trim_carry is set from the tag's own right-hand marker before its block is parsed") if ok
+                    else f"`{ast.unparse(st.test)}` is not reached from parse_block() and does not set stream.trim_carry: the block's first text is trimmed by the marker of an earlier tag")
+    _ob(obs, "liquid2/site.alternative-blocks.count", n >= 8, f"{n} alternative blocks (elsif/else/when/plural) in tag parsers")
+    return {"obligations": obs, "samples": [], "trusted": [], "functions": [], "assumptions": []}
+
+
+@register("C18")
 def c18_marker_classes(repo_root, tier):
     """The three whitespace-control markers are interchangeable as far as *recognition* goes: every character class of the lexer's
     patterns that stands for `an optional marker` admits all of `-`, `+` and `~` (a tag that is recognised with one marker and not
@@ -1425,12 +1469,42 @@ def c12_sites(repo_root, tier):
         joins = [c for c in _calls(fn) if isinstance(c.func, ast.Attribute) and c.func.attr == "join" and isinstance(c.func.value, ast.Constant)]
         ok = bool(joins) and all(c.func.value.value.strip() == "," for c in joins)
     _ob(obs, "liquid2.builtin.expressions:Filter.__str__/site.argument-separator", ok, "filter arguments are printed separated by commas")
-    fn = em.find("Path.__str__") if em else None
-    ok = False
-    if fn is not None:
+    def _quoting_ok(fn):
+        """Text segments are printed bare / dotted only under RE_PROPERTY.fullmatch(seg); quoted text is produced by
+        _escape_string(seg, q) between two q's (Liquid escapes) and never by Python's repr()."""
+        if fn is None:
+            return False, "not found"
         src = ast.unparse(fn)
-        ok = "RE_PROPERTY.fullmatch(root)" in src and "[{root!r}]" in src
-    _ob(obs, "liquid2.builtin.expressions:Path.__str__/site.root-quoting", ok, "a root segment that is not an identifier is printed in bracket-quote form")
+        if "!r}" in src or any(isinstance(c, ast.Call) and isinstance(c.func, ast.Name) and c.func.id == "repr" for c in ast.walk(fn)):
+            return False, "a string is printed with Python's repr(): `${`, \\xNN and \\UNNNNNNNN are not what the Liquid lexer reads back"
+        tests = [ast.unparse(n.test) for n in ast.walk(fn) if isinstance(n, ast.If)]
+        if any("RE_PROPERTY.match(" in t or "RE_PROPERTY.search(" in t for t in tests):
+            return False, "a segment is tested with a partial match of RE_PROPERTY"
+        esc = [c for c in ast.walk(fn) if isinstance(c, ast.Call) and isinstance(c.func, ast.Name) and c.func.id == "_escape_string"]
+        for j in [j for j in ast.walk(fn) if isinstance(j, ast.JoinedStr)]:
+            vals = [v for v in j.values if isinstance(v, ast.FormattedValue)]
+            for k, v in enumerate(vals):
+                if isinstance(v.value, ast.Call) and v.value in esc:
+                    q = ast.unparse(v.value.args[1]) if len(v.value.args) > 1 else None
+                    if not (0 < k < len(vals) - 1 and ast.unparse(vals[k - 1].value) == q and ast.unparse(vals[k + 1].value) == q):
+                        return False, "escaped text is not enclosed by the quote character it was escaped for"
+        return True, ""
+
+    fn = em.find("Path.__str__") if em else None
+    ok, why = _quoting_ok(fn)
+    if ok:
+        tests = [ast.unparse(n.test) for n in ast.walk(fn) if isinstance(n, ast.If)]
+        n_esc = sum(1 for c in ast.walk(fn) if isinstance(c, ast.Call) and isinstance(c.func, ast.Name) and c.func.id == "_escape_string")
+        ok = sum(1 for t in tests if t.startswith("RE_PROPERTY.fullmatch(")) >= 2 and n_esc >= 2 and "isinstance(root, str)" in tests
+        why = "root and later segments are not both tested with RE_PROPERTY.fullmatch and quoted through _escape_string"
+    _ob(obs, "liquid2.builtin.expressions:Path.__str__/site.root-quoting", ok,
+        "a text segment (the root included) is printed bare only if RE_PROPERTY.fullmatch; otherwise in brackets, quoted with Liquid escapes; a root that is a nested path or an index keeps its brackets" if ok else why)
+    for cn in ("StringLiteral", "TemplateString"):
+        fn = em.find(f"{cn}.__str__") if em else None
+        okq, why = _quoting_ok(fn)
+        okq = okq and any(isinstance(c, ast.Call) and isinstance(c.func, ast.Name) and c.func.id == "_escape_string" for c in ast.walk(fn))
+        _ob(obs, f"liquid2.builtin.expressions:{cn}.__str__/site.liquid-string-syntax", okq,
+            f"{cn} is printed as quote + _escape_string(text, quote) + quote (contract of _escape_string: it decodes back to the text)" if okq else (why or "does not print its text through _escape_string"))
     # (d) logical expressions: operands are printed under their operator's own precedence, a lower-precedence operand and every
     #     nested negation are parenthesised (the parser gives `not` everything to its right)
     fn = em.find("BooleanExpression.__str__") if em else None
@@ -1447,6 +1521,23 @@ def c12_sites(repo_root, tier):
                   and ast.unparse(fn.body[-1]) == f"return {nm}(self.expression, 0)")
     _ob(obs, "liquid2.builtin.expressions:BooleanExpression.__str__/site.logical-parentheses", ok,
         "and/or operands are printed under the operator's own precedence; lower-precedence operands and nested negations get parentheses")
+    # (d1) the parentheses are produced by BooleanExpression.__str__ only: every other expression class whose parser takes a
+    #      logical expression (parse_boolean_primitive) as a part - an arrow function's body - prints that part through it
+    n_bool = 0
+    if em is not None:
+        for cname, c in em.classes.items():
+            if cname in ("BooleanExpression", "LogicalNotExpression", "LogicalAndExpression", "LogicalOrExpression"):
+                continue
+            pf = next((st for st in c.body if isinstance(st, ast.FunctionDef) and st.name == "parse"), None)
+            if pf is None or not any(isinstance(x, ast.Call) and isinstance(x.func, ast.Name) and x.func.id == "parse_boolean_primitive" for x in ast.walk(pf)):
+                continue
+            n_bool += 1
+            sf = next((st for st in c.body if isinstance(st, ast.FunctionDef) and st.name == "__str__"), None)
+            okb = sf is not None and any(isinstance(x, ast.Call) and isinstance(x.func, ast.Name) and x.func.id == "BooleanExpression" for x in ast.walk(sf))
+            _ob(obs, f"liquid2.builtin.expressions:{cname}.__str__/site.logical-part-printed-with-parentheses", okb,
+                f"{cname} prints its logical sub-expression through BooleanExpression.__str__" if okb
+                else f"{cname}.parse takes a logical expression (parentheses allowed) but __str__ prints it with the operators' bare __str__: `(a or b) and c` is printed as `a or b and c`")
+    _ob(obs, "liquid2.builtin.expressions/site.logical-parts.count", n_bool >= 1, f"{n_bool} expression classes with a logical sub-expression")
     # (d2) a field parsed with parse_string_or_identifier (a word *or* a quoted string) is printed through Identifier.as_source()
     n_ident = 0
     for key, tagcls, m in regs:
@@ -1514,10 +1605,15 @@ def c12_sites(repo_root, tier):
     fn = tkm.find("PathToken.__str__") if tkm else None
     okp = False
     if fn is not None:
-        tests = [ast.unparse(n.test) for n in ast.walk(fn) if isinstance(n, ast.If)]
-        srcp = ast.unparse(fn)
-        okp = any(t.startswith("RE_PROPERTY.fullmatch(") for t in tests) and not any("RE_PROPERTY.match(" in t or "RE_PROPERTY.search(" in t for t in tests) and "!r}]" in srcp
-    _ob(obs, "liquid2.token:PathToken.__str__/site.segment-quoting", okp, "a path segment is printed as .name only when RE_PROPERTY.fullmatch(segment); anything else as ['...']")
+        from .frame import significant_body
+        body = significant_body(fn)
+        # either the path's own source text (the token's span of the source: exactly what was lexed) ...
+        okp = len(body) == 1 and isinstance(body[0], ast.Return) and ast.unparse(body[0].value) == "self.source[self.start:self.stop]"
+        if not okp:
+            # ... or rebuilt under the quoting rule of Path.__str__
+            okp, _w = _quoting_ok(fn)
+            okp = okp and any(ast.unparse(n.test).startswith("RE_PROPERTY.fullmatch(") for n in ast.walk(fn) if isinstance(n, ast.If))
+    _ob(obs, "liquid2.token:PathToken.__str__/site.segment-quoting", okp, "a path token is printed as the span of source text it was lexed from (or rebuilt with whole-segment RE_PROPERTY tests and Liquid-escaped quoted segments)")
     # (f) pickling: a class whose __new__ takes required keyword-only arguments tells pickle about them (the default protocol
     #     re-creates the object with cls.__new__(cls, *args) only); node and expression classes are plain slotted objects
     for m in repo.all_modules():
@@ -1867,6 +1963,28 @@ def c19_sites(repo_root, tier):
                     bad.append(f"{m.name}:{qual}: {ast.unparse(n)}")
     _ob(obs, "liquid2.builtin.filters/site.liquid-string-form-of-arguments", not bad and n_filters >= 60,
         f"{n_filters} filter callables: no argument is converted to text with Python's str()" if not bad else f"str() of a data argument: {bad[:4]}")
+    # the string-key form reads a property that an item may not have: a missing property is nil (as in the lambda form, where
+    # the path evaluates to undefined) - item[key] is read through _getitem(..) or inside a try that handles KeyError
+    n_sub = 0
+    for m in repo.all_modules():
+        if ".filters." not in m.name:
+            continue
+        for qual, cls, fn, parent in function_defs(m):
+            if fn.name != "__call__" or "key" not in [a.arg for a in fn.args.args + fn.args.kwonlyargs]:
+                continue
+            bad = []
+            for n in own_nodes(fn):
+                if isinstance(n, ast.Subscript) and isinstance(n.ctx, ast.Load) and isinstance(n.slice, ast.Name) and n.slice.id == "key":
+                    n_sub += 1
+                    guarded = any(isinstance(t, ast.Try) and any(x is n for st in t.body for x in ast.walk(st))
+                                  and any(h.type is None or any(k in ast.unparse(h.type) for k in ("KeyError", "LookupError", "Exception")) for h in t.handlers)
+                                  for t in ast.walk(fn))
+                    if not guarded:
+                        bad.append(f"line {n.lineno}: {ast.unparse(n)}")
+            if bad or any(isinstance(n, ast.Subscript) and isinstance(n.slice, ast.Name) and n.slice.id == "key" for n in own_nodes(fn)):
+                _ob(obs, f"{m.name}:{qual}/site.missing-property-is-nil", not bad,
+                    "item[key] is read inside a try that handles KeyError" if not bad
+                    else f"{bad[0]} outside try/except KeyError: an item without the property makes the filter fail with KeyError instead of treating it as nil")
     _ob(obs, "liquid2.builtin.filters.find_filters:HasFilter.__call__/site.any-over-matches", ok, "has reduces any() over the match tests, not over the matching items (whose own truthiness is irrelevant)")
     return {"obligations": obs, "samples": [], "trusted": ["user __getitem__ is deterministic (the same lookup gives the same value in both forms)"], "functions": [],
             "assumptions": [], "not_covered": ["sort/uniq/compact/map/concat and list-slice laws, join on lists, base64 inverses: not under contract (site rules only for sorting and selection predicates)"]}
@@ -1888,7 +2006,8 @@ def c02_sites(repo_root, tier):
     n = 0
     for m, qual, cls, fn, parent in _all_functions(repo):
         for call in _calls(fn):
-            if ast.unparse(call.func).endswith("datetime.fromtimestamp"):
+            # (babel's format_datetime converts a numeric `datetime` argument with datetime.fromtimestamp itself)
+            if ast.unparse(call.func).endswith("datetime.fromtimestamp") or ast.unparse(call.func) == "dates.format_datetime":
                 n += 1
                 ok = False
                 for t in ast.walk(fn):
@@ -1898,7 +2017,24 @@ def c02_sites(repo_root, tier):
                 _ob(obs, f"{m.name}:{qual}/site.fromtimestamp-guarded@{_ordinal(fn, call)}", ok,
                     "datetime.fromtimestamp(x) for a data-supplied x sits in a try that handles OverflowError and OSError" if ok
                     else "datetime.fromtimestamp(x) outside try/except (OverflowError, OSError): a large timestamp escapes as a non-Liquid exception")
-    _ob(obs, "liquid2/site.fromtimestamp.count", n >= 2, f"{n} fromtimestamp call sites")
+    _ob(obs, "liquid2/site.fromtimestamp.count", n >= 3, f"{n} fromtimestamp call sites")
+    # printf-style interpolation of a message that comes from a string literal or a catalog (`text % mapping` in filter code): the
+    # text decides which keys are looked up, so a key the mapping lacks (KeyError - which Filter.evaluate does not convert) must
+    # be handled where the formatting happens
+    n_fmt = 0
+    for m, qual, cls, fn, parent in _all_functions(repo):
+        if ".filters." not in m.name:
+            continue
+        dict_vars = {t.id for a in own_nodes(fn) if isinstance(a, ast.Assign) and isinstance(a.value, (ast.Dict, ast.DictComp)) for t in a.targets if isinstance(t, ast.Name)}
+        for b in own_nodes(fn):
+            if isinstance(b, ast.BinOp) and isinstance(b.op, ast.Mod) and isinstance(b.left, ast.Name) and isinstance(b.right, ast.Name) and b.right.id in dict_vars:
+                n_fmt += 1
+                ok = any(isinstance(t, ast.Try) and any(x is b for st in t.body for x in ast.walk(st))
+                         and any(h.type is None or any(k in ast.unparse(h.type) for k in ("KeyError", "LookupError", "Exception")) for h in t.handlers) for t in ast.walk(fn))
+                _ob(obs, f"{m.name}:{qual}/site.message-format-keyerror-handled@{_ordinal(fn, b)}", ok,
+                    f"`{ast.unparse(b)}` sits in a try that handles KeyError" if ok
+                    else f"`{ast.unparse(b)}`: a message naming a key the mapping lacks (e.g. '%(count)d') raises a bare KeyError that nothing converts")
+    _ob(obs, "liquid2/site.message-format.count", n_fmt >= 1, f"{n_fmt} printf-style message interpolations in filter code")
     # RenderContext.get[_async]: no assert on data-dependent values (a path whose root is not a name resolves to undefined)
     cm = repo.module("liquid2.context")
     for name in ("RenderContext.get", "RenderContext.get_async"):
